@@ -226,7 +226,7 @@ def round4_shapes(quick):
                   ("four", ["array", "lambda", "vec", "lambda2"])):
         lets = "\n    ".join(wrap[k].format(v=f"v{i}") for i, k in enumerate(ks))
         calls = " + ".join(f"f(v{i}, n - 1)" for i in range(len(ks)))
-        for start in (3, 12):
+        for start in ((3,) if quick else (3, 12)):
             out.append((f"mono-growth-{n}-{start}", (f"fn f<T>(x: T, n: int) -> int {{\n    if n == 0 {{ return 0 }}\n    {lets}\n    return {calls}\n}}\n"
                                                       f"fn main() -> int {{ return f(1, {start}) }}\nprint(main())").encode()))
     out += [
